@@ -596,7 +596,7 @@ HARNESS_ENV = dict(os.environ, ASAN_OPTIONS="detect_leaks=0:abort_on_error=0:han
                    UBSAN_OPTIONS="print_stacktrace=0:halt_on_error=1", TSAN_OPTIONS="halt_on_error=1")
 
 
-def run_both(harness_cmd, driver_cmd, lines, timeout=3000, chunk=4000):
+def run_both(harness_cmd, driver_cmd, lines, timeout=900, chunk=4000):
     """feeds the same case lines to the C++ harness and to the extracted model, in parallel chunks;
     returns (impl_lines, model_lines) aligned with `lines` ('<missing>' where a process died)"""
     from multiprocessing.pool import ThreadPool
